@@ -521,6 +521,13 @@ class _ControlLoopRunner:
 
         await self.adapter.on_tick(tick)
 
+        if any(isinstance(c, (CommandHalt, CommandFailWorkflow)) for c in commands):
+            # The run is ending by failure, timeout or cancellation: stop the
+            # workers before the terminal event is published (as is done when a
+            # step returns a StopEvent), so that nothing a cancelled step writes
+            # from its cancellation path lands on the stream after it.
+            await self.cleanup_tasks()
+
         for command in commands:
             try:
                 result = await self.process_command(command)
